@@ -11,7 +11,7 @@ namespace MlsVerif.External
 inductive ContentType | application | proposal | commit
   deriving DecidableEq, Repr
 
-inductive Res | ok | groupIdMismatch | invalidEpoch | versionMismatch
+inductive Res | ok | groupIdMismatch | invalidEpoch | versionMismatch | unencryptedApplicationMessage
   deriving DecidableEq, Repr
 
 /-- `ExternalGroup::min_epoch_available`: `max_epoch_jitter.map(|j| epoch.saturating_sub(j))`;
@@ -29,5 +29,13 @@ def checkMetadata (epoch : Nat) (jitter : Option Nat) (sameVersion sameGroup : B
       match minEpochAvailable epoch jitter with
       | some min => if msgEpoch < min then .invalidEpoch else .ok
       | none => .ok
+
+/-- `check_metadata` with the wire format: the last test of the function refuses application content that does not come
+as a `PrivateMessage` ("Unencrypted application messages are not allowed"), after version, group and epoch tests -/
+def checkMetadataW (isCipher : Bool) (epoch : Nat) (jitter : Option Nat) (sameVersion sameGroup : Bool) (msgEpoch : Nat)
+    (ct : ContentType) : Res :=
+  match checkMetadata epoch jitter sameVersion sameGroup msgEpoch ct with
+  | .ok => if !isCipher && ct == .application then .unencryptedApplicationMessage else .ok
+  | r => r
 
 end MlsVerif.External
